@@ -54,6 +54,14 @@ def accepted(o):
     return o.get("load") == "ok" and "ok" in o.get("result", {})
 
 
+def pick_params(rng, desc):
+    """Substitution parameters are an argument of every verification: mostly absent, sometimes an empty set or one that
+    no placeholder uses. The verification is the same one (thresholds, keys, rules, names all as in the signed layout)."""
+    p = rng.choice([None, None, None, {}, {"UNUSED": "v"}, {"UNUSED": "{OTHER}", "X-1": ""}])
+    desc["substitution_parameters"] = p
+    return p
+
+
 def run_case(scn, desc, res, nontrivial=True):
     """Runs implementation and model, records the case and any disagreement.
     Returns (impl, model, agreed)."""
